@@ -80,6 +80,24 @@ func runPropertyRaw(prop, tier string, forBaseline bool) *Report {
 	}
 	var all []*Obligation
 	for _, r := range results {
+		// clauses restricted to other properties ([label @Cnn]) are not part of
+		// this property's check
+		kept := r.Obls[:0:0]
+		for _, o := range r.Obls {
+			if o.Restricted {
+				in := false
+				for _, p := range o.Props {
+					if p == prop {
+						in = true
+					}
+				}
+				if !in {
+					continue
+				}
+			}
+			kept = append(kept, o)
+		}
+		r.Obls = kept
 		all = append(all, r.Obls...)
 	}
 	solveAll(all, solveOpts{timeout: timeout, workers: runtime.NumCPU(), agree: agree})
